@@ -21,8 +21,8 @@ def mut(mid, props, file, old, new, note=""):
 
 # ---------------- W1
 mut("m01", ["C08", "C34"], "textx/model.py",
-    "        for obj, attr, crossref in current_crossrefs:\n            if get_model(obj) == self.model:",
-    "        for obj, attr, crossref in reversed(current_crossrefs):\n            if get_model(obj) == self.model:",
+    "        for obj, attr, crossref in current_crossrefs:\n            if get_model(obj) is self.model:",
+    "        for obj, attr, crossref in reversed(current_crossrefs):\n            if get_model(obj) is self.model:",
     "resolve references in reverse textual order")
 mut("m02", ["C08"], "textx/model.py",
     "                        idx = bisect_right(positions, crossref.position)\n",
@@ -128,7 +128,7 @@ mut("m18", ["C17"], "textx/scoping/__init__.py",
     "            if False and self.all_models.has_model(filename):\n                # print(\"CACHED {}\".format(filename))",
     "load_model ignores the all_models cache")
 mut("m19", ["C17"], "textx/scoping/providers.py",
-    "        # 1) try to find object locally\n        ret = self.scope_provider(obj, attr, obj_ref)\n        if ret:\n            return ret\n",
+    "        # 1) try to find object locally\n        ret = self.scope_provider(obj, attr, obj_ref)\n        if ret is not None:\n            return ret\n",
     "",
     "ImportURI does not search the model itself first")
 mut("m20", ["C17"], "textx/metamodel.py",
